@@ -429,3 +429,27 @@ def pb_sat(a, c):
 
 def models_cnf(n, F):
     return [tuple(a[1:]) for a in assignments(n) if cnf_sat(a, F)]
+
+
+# --------------------------------------------------------------------------
+# family registries (harness/fam_c0X.py) reused by C08, C10, C17
+# --------------------------------------------------------------------------
+def family_replies(model, fams_params):
+    """for each (fam, p): the list of model replies of every variant the implementation may agree with
+    (documented variant first, then the as-found variant of an unrepaired known finding)"""
+    reqs, index = [], []
+    for fam, p in fams_params:
+        variants = []
+        if fam.get('request_spec'):
+            variants.append(fam['request_spec'](p))
+        r = fam['request'](p)
+        if r not in variants:
+            variants.append(r)
+        if fam.get('alternatives'):
+            for a in fam['alternatives'](p):
+                if a['request'] not in variants:
+                    variants.append(a['request'])
+        index.append((len(reqs), len(variants)))
+        reqs += variants
+    reps = model.batch(reqs) if reqs else []
+    return [reps[i:i + n] for i, n in index]
